@@ -1,7 +1,381 @@
 /-
-  Helper lemmas (RunJ): byte-level end-state invariant.
+  Helper lemmas (RunJ): byte-level end-state invariant (C01_bytes).
+
+  `Good`, `NoAl`, `BOk` have the same bodies as `GoodByte`, `NoAlias`, `BytesOk` of `TB.Props.C01bytes` (which
+  imports this file). The invariant `Inv` is carried along the replay of the operation log; every fact about an
+  operation is the membership fact `OpFact`, taken from `run_inv`.
 -/
 import TB.Spec.ExportSpec
+import TB.Lemmas.RunF
+import TB.Lemmas.RunARun
+import TB.Props.C04a
+import TB.Props.C11
 namespace TB.RunJ
+open TB
+
+/-! ### the vocabulary of `TB.Props.C01bytes` -/
+
+def Good (H : Bytes → Bytes) (work : List Work) (p : Path) (k : Nat) (x : UInt8) : Prop :=
+  ∃ w ∈ work, ∃ (j : Nat) (seg : WSeg) (buf : Bytes),
+    w.segs[j]? = some seg ∧ seg.ent.isPad = false ∧ seg.ent.fullTarget = p ∧
+    seg.off ≤ k ∧ k < seg.off + seg.len ∧ H buf = w.hash ∧
+    buf[segStart w.segs j + (k - seg.off)]? = some x
+
+def NoAl (fs : Fs) (table : List TEntry) : Prop :=
+  ∀ e ∈ table, e.isPad = false → ∀ q i, fs.inoOf e.fullTarget = some i → fs.inoOf q = some i → q = e.fullTarget
+
+def BOk (H : Bytes → Bytes) (work : List Work) (fs0 fs : Fs) : Prop :=
+  ∀ p i, fs.inoOf p = some i → ∀ k x, (fs.content i)[k]? = some x →
+    (∃ i0, fs0.inoOf p = some i0 ∧ (fs0.content i0)[k]? = some x)
+    ∨ (x = 0 ∧ ∀ i0, fs0.inoOf p = some i0 → (fs0.content i0).length ≤ k)
+    ∨ Good H work p k x
+
+/-- table entries naming the same export image declare the same length -/
+def SameLen (table : List TEntry) : Prop :=
+  ∀ e ∈ table, ∀ f ∈ table, e.isPad = false → f.isPad = false → e.fullTarget = f.fullTarget →
+    e.fileLength = f.fileLength
+
+/-! ### the invariant -/
+
+/-- what holds of the tree `fs` replayed from a prefix of the log of a run started on `fs0`:
+    inodes are below `next`; the names of `fs0` keep their inodes; no export image shares its inode; an export image
+    that existed at the start is at least as long as it was or has its declared length; the byte sentence -/
+structure Inv (H : Bytes → Bytes) (work : List Work) (table : List TEntry) (fs0 fs : Fs) : Prop where
+  lt : ∀ p i, fs.inoOf p = some i → i < fs.next
+  keep : ∀ q i, fs0.inoOf q = some i → fs.inoOf q = some i
+  na : NoAl fs table
+  len : ∀ e ∈ table, e.isPad = false → ∀ i i0, fs.inoOf e.fullTarget = some i → fs0.inoOf e.fullTarget = some i0 →
+    (fs0.content i0).length ≤ (fs.content i).length ∨ (fs.content i).length = e.fileLength
+  bytes : BOk H work fs0 fs
+
+variable {H : Bytes → Bytes} {work : List Work} {table : List TEntry} {fs0 : Fs}
+
+theorem Inv.base (hwf : FsWF fs0) (hna : NoAl fs0 table) : Inv H work table fs0 fs0 := by
+  refine ⟨fun p i h => hwf.1 p i (RunF.inoOf_mem h), fun _ _ h => h, hna, ?_, ?_⟩
+  · intro e _ _ i i0 h h0
+    rw [h] at h0; cases h0
+    exact Or.inl (Nat.le_refl _)
+  · intro p i h k x hx
+    exact Or.inl ⟨i, h, hx⟩
+
+/-- the invariant looks only at names, contents and `next` (so `create_dir_all` keeps it) -/
+theorem Inv.congr {fs fs' : Fs} (hf : fs'.files = fs.files) (hd : fs'.data = fs.data) (hn : fs'.next = fs.next)
+    (h : Inv H work table fs0 fs) : Inv H work table fs0 fs' := by
+  have hi : ∀ p, fs'.inoOf p = fs.inoOf p := RunF.inoOf_congr hf
+  have hc : ∀ i, fs'.content i = fs.content i := RunF.content_congr hd
+  refine ⟨?_, ?_, ?_, ?_, ?_⟩
+  · intro p i hp; rw [hn]; rw [hi] at hp; exact h.lt p i hp
+  · intro q i hq; rw [hi]; exact h.keep q i hq
+  · intro e he hp q i h1 h2; rw [hi] at h1 h2; exact h.na e he hp q i h1 h2
+  · intro e he hp i i0 h1 h0; rw [hi] at h1; rw [hc]; exact h.len e he hp i i0 h1 h0
+  · intro p i hp k x hx; rw [hi] at hp; rw [hc] at hx; exact h.bytes p i hp k x hx
+
+/-! ### creating a file -/
+
+theorem content_addFile_new (fs : Fs) (t : Path) : (RunF.addFile fs t).content fs.next = [] := by
+  simp [RunF.addFile, Fs.content]
+
+theorem Inv.addFile {fs : Fs} {t : Path} (h : Inv H work table fs0 fs) (hnone : fs.inoOf t = none) :
+    Inv H work table fs0 (RunF.addFile fs t) := by
+  have old : ∀ q j, (RunF.addFile fs t).inoOf q = some j → (q = t ∧ j = fs.next) ∨ (q ≠ t ∧ fs.inoOf q = some j) := by
+    intro q j hq
+    rw [RunF.inoOf_addFile] at hq
+    split at hq
+    · rename_i e; cases hq; exact Or.inl ⟨e.symm, rfl⟩
+    · rename_i e; exact Or.inr ⟨fun e' => e e'.symm, hq⟩
+  have cold : ∀ q j, fs.inoOf q = some j → (RunF.addFile fs t).content j = fs.content j :=
+    fun q j hq => RunF.content_addFile fs t j (Nat.ne_of_lt (h.lt q j hq))
+  refine ⟨?_, ?_, ?_, ?_, ?_⟩
+  · intro p i hp
+    show i < fs.next + 1
+    rcases old p i hp with ⟨_, rfl⟩ | ⟨_, hp⟩
+    · exact Nat.lt_succ_self _
+    · exact Nat.lt_succ_of_lt (h.lt p i hp)
+  · intro q i hq
+    have hq' := h.keep q i hq
+    rw [RunF.inoOf_addFile, if_neg]
+    · exact hq'
+    · intro e; subst e; rw [hnone] at hq'; cases hq'
+  · intro e he hp q i h1 h2
+    rcases old _ _ h1 with ⟨e1, rfl⟩ | ⟨_, h1'⟩
+    · rcases old _ _ h2 with ⟨e2, _⟩ | ⟨_, h2'⟩
+      · rw [e1, e2]
+      · exact absurd (h.lt q _ h2') (Nat.lt_irrefl _)
+    · rcases old _ _ h2 with ⟨_, rfl⟩ | ⟨_, h2'⟩
+      · exact absurd (h.lt _ _ h1') (Nat.lt_irrefl _)
+      · exact h.na e he hp q i h1' h2'
+  · intro e he hp i i0 h1 h0
+    rcases old _ _ h1 with ⟨e1, _⟩ | ⟨_, h1'⟩
+    · have := h.keep _ _ h0
+      rw [e1, hnone] at this; cases this
+    · rw [cold _ _ h1']
+      exact h.len e he hp i i0 h1' h0
+  · intro p i hp k x hx
+    rcases old _ _ hp with ⟨_, rfl⟩ | ⟨_, hp'⟩
+    · rw [content_addFile_new] at hx; cases hx
+    · rw [cold _ _ hp'] at hx
+      exact h.bytes p i hp' k x hx
+
+/-! ### rewriting the content of an export image -/
+
+theorem Inv.setData {fs : Fs} (hsame : SameLen table) (h : Inv H work table fs0 fs)
+    {e : TEntry} (he : e ∈ table) (hpad : e.isPad = false) {i : Nat} (hi : fs.inoOf e.fullTarget = some i)
+    (bs : Bytes)
+    (hb : ∀ k x, bs[k]? = some x → (fs.content i)[k]? = some x
+        ∨ (x = 0 ∧ ∀ i0, fs0.inoOf e.fullTarget = some i0 → (fs0.content i0).length ≤ k)
+        ∨ Good H work e.fullTarget k x)
+    (hl : ∀ i0, fs0.inoOf e.fullTarget = some i0 →
+        (fs0.content i0).length ≤ bs.length ∨ bs.length = e.fileLength) :
+    Inv H work table fs0 (fs.setData i bs) := by
+  refine ⟨fun p j hp => h.lt p j hp, fun q j hq => h.keep q j hq, h.na, ?_, ?_⟩
+  · intro e' he' hp' j i0 h1 h0
+    have h1 : fs.inoOf e'.fullTarget = some j := h1
+    by_cases hj : j = i
+    · subst hj
+      have heq : e'.fullTarget = e.fullTarget := h.na e he hpad _ _ hi h1
+      rw [RD.Fs.content_setData]
+      rw [heq] at h0
+      rcases hl i0 h0 with h2 | h2
+      · exact Or.inl h2
+      · exact Or.inr (h2.trans (hsame e he e' he' hpad hp' heq.symm))
+    · rw [RB.Fs.content_setData_other _ _ _ _ hj]
+      exact h.len e' he' hp' j i0 h1 h0
+  · intro p j hp k x hx
+    have hp : fs.inoOf p = some j := hp
+    by_cases hj : j = i
+    · subst hj
+      have heq : p = e.fullTarget := h.na e he hpad _ _ hi hp
+      subst heq
+      rw [RD.Fs.content_setData] at hx
+      rcases hb k x hx with h1 | h1
+      · exact h.bytes _ _ hp k x h1
+      · exact Or.inr h1
+    · rw [RB.Fs.content_setData_other _ _ _ _ hj] at hx
+      exact h.bytes p j hp k x hx
+
+/-- `set_len` to the declared length: truncation keeps a prefix; an extension starts at the current length, which is
+    then not below the original one (otherwise the file already had its declared length) -/
+theorem Inv.setLen {fs : Fs} (hsame : SameLen table) (h : Inv H work table fs0 fs)
+    {e : TEntry} (he : e ∈ table) (hpad : e.isPad = false) {i : Nat} (hi : fs.inoOf e.fullTarget = some i) :
+    Inv H work table fs0 (fs.setLen i e.fileLength) := by
+  show Inv H work table fs0 (fs.setData i (if e.fileLength ≤ (fs.content i).length
+    then (fs.content i).take e.fileLength
+    else fs.content i ++ List.replicate (e.fileLength - (fs.content i).length) 0))
+  refine h.setData hsame he hpad hi _ ?_ ?_
+  · intro k x hx
+    split at hx
+    · rw [List.getElem?_take] at hx
+      split at hx
+      · exact Or.inl hx
+      · cases hx
+    · rename_i hn
+      rw [List.getElem?_append] at hx
+      split at hx
+      · exact Or.inl hx
+      · rename_i hk
+        rw [List.getElem?_replicate] at hx
+        split at hx
+        · cases hx
+          refine Or.inr (Or.inl ⟨rfl, ?_⟩)
+          intro i0 h0
+          rcases h.len e he hpad i i0 hi h0 with h1 | h1 <;> omega
+        · cases hx
+  · intro i0 _
+    right
+    split
+    · rw [List.length_take]; omega
+    · rw [List.length_append, List.length_replicate]; omega
+
+/-- the old content, zero-filled up to `off` if shorter -/
+def padTo (c : Bytes) (off : Nat) : Bytes := if off ≤ c.length then c else c ++ List.replicate (off - c.length) 0
+
+theorem writeAt_eq (fs : Fs) (i off : Nat) (d : Bytes) :
+    fs.writeAt i off d
+      = fs.setData i ((padTo (fs.content i) off).take off ++ d ++ (padTo (fs.content i) off).drop (off + d.length)) :=
+  rfl
+
+theorem padTo_spec (c : Bytes) (off : Nat) :
+    off ≤ (padTo c off).length ∧ c.length ≤ (padTo c off).length ∧
+    (off ≤ c.length → (padTo c off).length = c.length) ∧
+    (∀ k x, (padTo c off)[k]? = some x → c[k]? = some x ∨ (x = 0 ∧ c.length ≤ k ∧ k < off)) := by
+  unfold padTo
+  split
+  · rename_i h
+    exact ⟨h, Nat.le_refl _, fun _ => rfl, fun k x hx => Or.inl hx⟩
+  · rename_i h
+    refine ⟨?_, ?_, ?_, ?_⟩
+    · rw [List.length_append, List.length_replicate]; omega
+    · rw [List.length_append]; omega
+    · intro h'; exact absurd h' h
+    · intro k x hx
+      rw [List.getElem?_append] at hx
+      split at hx
+      · exact Or.inl hx
+      · rw [List.getElem?_replicate] at hx
+        split at hx
+        · cases hx
+          exact Or.inr ⟨rfl, by omega, by omega⟩
+        · cases hx
+
+theorem getElem?_write {α : Type} (c a : List α) (off : Nat) (hoff : off ≤ c.length) (k : Nat) :
+    (c.take off ++ a ++ c.drop (off + a.length))[k]?
+      = if k < off then c[k]? else if k < off + a.length then a[k - off]? else c[k]? := by
+  have hl : (c.take off).length = off := by rw [List.length_take]; omega
+  rw [List.getElem?_append, List.length_append, hl]
+  by_cases h1 : k < off
+  · rw [if_pos (by omega), if_pos h1, List.getElem?_append, hl, if_pos h1, List.getElem?_take, if_pos h1]
+  · rw [if_neg h1]
+    by_cases h2 : k < off + a.length
+    · rw [if_pos h2, if_pos h2, List.getElem?_append, hl, if_neg h1]
+    · rw [if_neg h2, if_neg h2, List.getElem?_drop]
+      congr 1
+      omega
+
+/-- a sound write: inside the segment the bytes are good; a zero-filled gap lies beyond the original length
+    (otherwise the file already had its declared length, which contains the segment); the rest is unchanged -/
+theorem Inv.writeAt {fs : Fs} (hsame : SameLen table) (hrange : ∀ w ∈ work, SegsInRange w)
+    (h : Inv H work table fs0 fs)
+    {w : Work} (hw : w ∈ work) {j : Nat} {seg : WSeg} {buf : Bytes} (hseg : w.segs[j]? = some seg)
+    (hpad : seg.ent.isPad = false) (hent : seg.ent ∈ table) {i : Nat} (hi : fs.inoOf seg.ent.fullTarget = some i)
+    (hH : H buf = w.hash) (hlen : segStart w.segs j + seg.len ≤ buf.length) :
+    Inv H work table fs0 (fs.writeAt i seg.off ((buf.drop (segStart w.segs j)).take seg.len)) := by
+  have hr : seg.off + seg.len ≤ seg.ent.fileLength := hrange w hw seg (List.mem_of_getElem? hseg)
+  have hdl : ((buf.drop (segStart w.segs j)).take seg.len).length = seg.len := by
+    rw [List.length_take, List.length_drop]; omega
+  obtain ⟨p1, p2, p3, p4⟩ := padTo_spec (fs.content i) seg.off
+  rw [writeAt_eq]
+  refine h.setData hsame hent hpad hi _ ?_ ?_
+  · intro k x hx
+    rw [getElem?_write _ _ _ p1, hdl] at hx
+    have outside : (padTo (fs.content i) seg.off)[k]? = some x → (k < seg.off ∨ seg.off + seg.len ≤ k) →
+        (fs.content i)[k]? = some x
+          ∨ (x = 0 ∧ ∀ i0, fs0.inoOf seg.ent.fullTarget = some i0 → (fs0.content i0).length ≤ k)
+          ∨ Good H work seg.ent.fullTarget k x := by
+      intro hx hk
+      rcases p4 k x hx with h1 | ⟨h1, h2, h3⟩
+      · exact Or.inl h1
+      · refine Or.inr (Or.inl ⟨h1, ?_⟩)
+        intro i0 h0
+        rcases h.len _ hent hpad i i0 hi h0 with h4 | h4 <;> omega
+    split at hx
+    · rename_i hk
+      exact outside hx (Or.inl hk)
+    · rename_i hk1
+      split at hx
+      · rename_i hk2
+        rw [List.getElem?_take, if_pos (by omega), List.getElem?_drop] at hx
+        exact Or.inr (Or.inr ⟨w, hw, j, seg, buf, hseg, hpad, rfl, by omega, hk2, hH, hx⟩)
+      · rename_i hk2
+        exact outside hx (Or.inr (by omega))
+  · intro i0 h0
+    have hbl : ((padTo (fs.content i) seg.off).take seg.off ++ (buf.drop (segStart w.segs j)).take seg.len
+        ++ (padTo (fs.content i) seg.off).drop (seg.off + ((buf.drop (segStart w.segs j)).take seg.len).length)).length
+        = seg.off + seg.len + ((padTo (fs.content i) seg.off).length - (seg.off + seg.len)) := by
+      rw [List.length_append, List.length_append, List.length_take, List.length_drop, hdl]
+      omega
+    rw [hbl]
+    rcases h.len _ hent hpad i i0 hi h0 with h4 | h4
+    · left; omega
+    · right
+      have := p3 (by omega)
+      omega
+
+/-! ### one logged operation -/
+
+/-- what is known of an operation of the log: `set_len` names an export image and its declared length, a write is
+    the write of a segment of a work item (whose entry is in the table) cut from a buffer with the piece's hash -/
+def OpFact (H : Bytes → Bytes) (work : List Work) (table : List TEntry) (o : Op) : Prop :=
+  (∀ n, o.kind = .setlen n → ∃ e ∈ table, e.isPad = false ∧ o.path = e.fullTarget ∧ n = e.fileLength) ∧
+  (∀ off data, o.kind = .write off data → ∃ w ∈ work, ∃ k seg buf, w.segs[k]? = some seg ∧
+    seg.ent.isPad = false ∧ seg.ent ∈ table ∧ o.path = seg.ent.fullTarget ∧ off = seg.off ∧ H buf = w.hash ∧
+    segStart w.segs k + seg.len ≤ buf.length ∧ data = (buf.drop (segStart w.segs k)).take seg.len)
+
+theorem Inv.step {fs : Fs} (hsame : SameLen table) (hrange : ∀ w ∈ work, SegsInRange w)
+    (h : Inv H work table fs0 fs) (o : Op) (hf : OpFact H work table o) :
+    Inv H work table fs0 (applyOp fs o) := by
+  unfold applyOp
+  cases hk : o.kind with
+  | mkdirs =>
+    simp only []
+    split
+    · obtain ⟨h1, h2, h3, _⟩ := RunF.mkdirs_spec fs o.path
+      exact h.congr h1 h2 h3
+    · exact h
+  | openc =>
+    simp only []
+    split
+    · rcases RunF.openCreate_cases fs o.path with e | ⟨hl, e⟩
+      · rw [e]; exact h
+      · rw [e]; exact h.addFile (RunF.look_notFound hl).2
+    · exact h
+  | setlen n =>
+    simp only []
+    split
+    · cases hl : fs.look o.path with
+      | file i =>
+        simp only []
+        obtain ⟨e, he, hpad, hp, hn⟩ := hf.1 n hk
+        subst hn
+        have hi := RunF.look_file_inoOf hl
+        rw [hp] at hi
+        exact h.setLen hsame he hpad hi
+      | _ => exact h
+    · exact h
+  | write off d =>
+    simp only []
+    split
+    · cases hl : fs.look o.path with
+      | file i =>
+        simp only []
+        obtain ⟨w, hw, k, seg, buf, hseg, hpad, hent, hp, hoff, hH, hlen, hd⟩ := hf.2 off d hk
+        subst hoff; subst hd
+        have hi := RunF.look_file_inoOf hl
+        rw [hp] at hi
+        exact h.writeAt hsame hrange hw hseg hpad hent hi hH hlen
+      | _ => exact h
+    · exact h
+  | _ => exact h
+
+theorem Inv.replay (hsame : SameLen table) (hrange : ∀ w ∈ work, SegsInRange w) (ops : List Op) :
+    ∀ fs, (∀ o ∈ ops, OpFact H work table o) → Inv H work table fs0 fs → Inv H work table fs0 (replay fs ops) := by
+  induction ops with
+  | nil => intro fs _ h; exact h
+  | cons o ops ih =>
+    intro fs hall h
+    show Inv H work table fs0 (TB.replay (applyOp fs o) ops)
+    exact ih _ (fun o' ho' => hall o' (List.mem_cons_of_mem _ ho'))
+      (h.step hsame hrange o (hall o List.mem_cons_self))
+
+/-! ### the operations of a run -/
+
+theorem run_opFact (H : Bytes → Bytes) (inp : RunIn) :
+    ∀ o ∈ (run H inp).ops, OpFact H (run H inp).work (run H inp).table o := by
+  intro o ho
+  rcases (run_inv H inp).2 o ho with (h | h | ⟨e, he, hp, hkind, hpath⟩) | ⟨w, hw, h, hent⟩
+  · exact ⟨fun n hk => (by rw [h] at hk; cases hk), fun off d hk => (by rw [h] at hk; cases hk)⟩
+  · exact ⟨fun n hk => (by rw [h] at hk; cases hk), fun off d hk => (by rw [h] at hk; cases hk)⟩
+  · refine ⟨fun n hk => ?_, fun off d hk => ?_⟩
+    · rcases hkind with h | h
+      · rw [h] at hk; cases hk
+      · rw [h] at hk; cases hk
+        exact ⟨e, he, hp, hpath, rfl⟩
+    · rcases hkind with h | h <;> (rw [h] at hk; cases hk)
+  · rcases h with h | ⟨buf, hb, k, seg, hseg, hp, hs⟩
+    · refine ⟨fun n hk => ?_, fun off d hk => ?_⟩
+      · rcases h with h | ⟨m, h⟩ | h <;> (rw [h] at hk; cases hk)
+      · rcases h with h | ⟨m, h⟩ | h <;> (rw [h] at hk; cases hk)
+    · have hmem := List.mem_of_getElem? hseg
+      refine ⟨fun n hk => ?_, fun off d hk => ?_⟩
+      · exact ⟨seg.ent, hent seg hmem, hp, by have := hs.confined.1; rw [hk] at this; simpa using this,
+          hs.confined.2 n hk⟩
+      · obtain ⟨h1, h2, h3, h4⟩ := hs.write hk
+        exact ⟨w, hw, k, seg, buf, hseg, hp, hent seg hmem, h1, h2, hb, h4, h3⟩
+
+/-- the invariant holds of the tree replayed from any part of the log that consists of operations of the run -/
+theorem inv_replay (H : Bytes → Bytes) (inp : RunIn) (hwf : FsWF inp.fs)
+    (hna : NoAl inp.fs (run H inp).table) (hsame : SameLen (run H inp).table)
+    (hrange : ∀ w ∈ (run H inp).work, SegsInRange w) (ops : List Op) (hops : ∀ o ∈ ops, o ∈ (run H inp).ops) :
+    Inv H (run H inp).work (run H inp).table inp.fs (replay inp.fs ops) :=
+  Inv.replay hsame hrange ops inp.fs (fun o ho => run_opFact H inp o (hops o ho)) (Inv.base hwf hna)
 
 end TB.RunJ
